@@ -130,6 +130,7 @@ func roundTrip(c *run.Ctx, id string, a *ref.Packet, part string, r *gen.RNG) {
 		c.Violation(id+"/type/"+T, fmt.Sprintf("decoded as %T", res.Pkt), replayDetail(a, b1, nil))
 		return
 	}
+	willAsPacket(c, id, res.Pkt, func() map[string]interface{} { return replayDetail(a, b1, nil) })
 	s2, pan := snapshotGuarded(res.Pkt)
 	c.Eval(1)
 	if pan != nil {
